@@ -10,6 +10,8 @@ R7.1 [AVN, relational] batched == solo: training.wrap(env) (Vmap / DomainRandomi
 R7.4 [AVN, re-entrancy law] on the un-vmapped stack (Episode -> AutoReset over a bare env whose step shares
      info with its input) stepping twice from the same state object gives the same result: the
      necessary and sufficient condition for eager evaluation to agree with jit on a re-used state.
+R7.5 [dataflow] no environment constructor keeps a value computed from the ARRAY fields of its system (the domain
+     randomisation wrapper replaces env.unwrapped.sys per member inside the vmap); static metadata may be cached.
 R7.2 [AVN] lifting: VmapWrapper.reset / step give member b exactly inner reset(rng[b]) / step(state[b],
      action[b]) -- a semantic statement, indifferent to how the vmap is spelled; the domain randomisation
      wrapper's lifting (per-member system, state, action) is decided by R7.1.
@@ -158,6 +160,61 @@ def reentrant(U, rep, tier):
                 where=f.where(), construct='step(s, a) evaluated twice on one state object; inner env step = state.replace(...) sharing info')
 
 
+STATIC_SYS_METHODS = ('num_links', 'act_size', 'q_size', 'qd_size', 'dof_link', 'dof_ranges', 'q_idx', 'qd_idx')
+
+
+def no_cached_system_values(U, rep):
+  """R7.5 [dataflow]: the domain-randomisation wrapper gives each batch member its own system by assigning
+  env.unwrapped.sys inside the vmap, so an environment may not keep, from construction time, a value computed from
+  the ARRAY fields of the system it was built with (timestep, masses, gears, ...): a member would see the base
+  system's value.  Static metadata (link names / types / parents, sizes) is the same for every member and may be
+  cached.  Decided on the constructors of PipelineEnv and of every registered environment."""
+  static = set(avn.static_fields('brax.base', 'System')) | set(STATIC_SYS_METHODS)
+  envs = c16.physics_envs(U)
+  classes = [('brax.envs.base', 'PipelineEnv')] + sorted(set(envs.values()))
+  n = 0
+  for modname, cname in classes:
+    f = U.funcs.get('%s.%s.__init__' % (modname, cname))
+    if f is None:
+      continue
+    n += 1
+    tainted = {}          # local name -> description of the array field it was computed from
+
+    def dep(e):
+      """A non-static system field the expression depends on, or None."""
+      for x in ast.walk(e):
+        if isinstance(x, ast.Attribute):
+          d = dotted(x)
+          if d and (d[0] == 'sys' and len(d) > 1 and d[1] not in static):
+            return '.'.join(d[:3])
+          if d and d[:2] == ['self', 'sys'] and len(d) > 2 and d[2] not in static:
+            return '.'.join(d[1:4])
+        if isinstance(x, ast.Name) and x.id in tainted:
+          return tainted[x.id]
+      return None
+
+    bad = None
+    for st in ast.walk(f.node):
+      if not isinstance(st, (ast.Assign, ast.AnnAssign, ast.AugAssign)) or getattr(st, 'value', None) is None:
+        continue
+      tgts = st.targets if isinstance(st, ast.Assign) else [st.target]
+      why = dep(st.value)
+      for t in tgts:
+        if isinstance(t, ast.Name):
+          if why and t.id != 'sys':
+            tainted[t.id] = why
+        elif isinstance(t, ast.Attribute) and dotted(t) and dotted(t)[0] == 'self' and dotted(t)[1:] != ['sys']:
+          if why and bad is None:
+            bad = (st, '.'.join(dotted(t)), why)
+    rep.check(bad is None, 'R7.5', '%s.__init__ keeps no value computed from the array fields of its system' % cname,
+              lambda: '%s caches `%s`, computed from `%s` of the system the environment was built with; under domain randomisation each '
+              'member steps with its own system (env.unwrapped.sys is replaced inside the vmap) but would keep this value' % (
+                  cname, bad[1], bad[2]), where=f.where(bad[0]) if bad else f.where(),
+              construct='constructor dataflow: self.<attr> <- sys.<array field>')
+  if n < 8:
+    raise AnalysisError('R7.5 found only %d environment constructors' % n)
+
+
 def lifting_sites(U, rep):
   """R7.2 (semantic, not syntactic): VmapWrapper.reset / step applied to a batch give each member exactly what the
   inner env's reset / step give that member -- however the lifting is spelled (vmap of the bound method, of a
@@ -232,6 +289,7 @@ def no_channels(U, rep):
 
 
 def run(U, rep, tier):
+  no_cached_system_values(U, rep)
   batched_equals_solo(U, rep, tier)
   reentrant(U, rep, tier)
   lifting_sites(U, rep)
